@@ -32,8 +32,11 @@ PROP = {
         "off by LIMIT are evaluated, depends on plan and pipelining (SQL leaves evaluation order open)",
         "LIMIT/OFFSET are generated only under an ORDER BY over all output columns (otherwise the answer is not unique); under a partial "
         "ORDER BY the answer must be sorted under the spec comparator and equal as a multiset",
-        "aggregate queries have the form SELECT keys.., aggregates.. GROUP BY keys.. (the engine emits keys then aggregates positionally); "
-        "HAVING, ORDER BY/DISTINCT/LIMIT on aggregate queries, aggregates inside expressions, COUNT(DISTINCT) and sub-queries are outside the modelled grammar (sub-queries answer an error since repo 1374df0); CASE (searched and simple) is modelled, but not below a unary minus",
+        "aggregate queries: select list and HAVING are expressions over the aggregate row (group keys, then aggregates; since repo "
+        "48289eb the engine plans them that way); a column that is neither grouped nor aggregated cannot be written in the case "
+        "syntax; SUM results are only compared / added to, AVG results only shown (they are doubles in the engine); "
+        "sub-queries are outside the modelled grammar (they answer an error since repo 1374df0); CASE (searched and simple) is "
+        "modelled, but not below a unary minus",
         "SUM/AVG return DOUBLE in the engine: compared as exact integers / correctly rounded quotients, for |sum| < 2^53",
         "integer literals and stored values are exactly representable as f64 (the lexer reads numbers as f64)",
         "what a failed INSERT/UPDATE/DELETE leaves behind is C03: statements after a failed DML statement of a case are not compared",
